@@ -253,7 +253,7 @@ def run(ctx):
 
     cases = []   # (line, obs, shared, tag)
     seen = set()
-    reps = 12 if ctx.quick() else 1200
+    reps = 40 if ctx.quick() else 1200
     plan = []
     cdir = common.VERIF / "corpus" / "C06"
     for p in sorted(cdir.glob("*.json")) if cdir.exists() else []:
